@@ -685,7 +685,24 @@ pub fn factor_lets(spec: &mut Spec, tape: &[u32], pct: u32) {
                         }
                     }
                 }
-                let mut new_items: Vec<Inner> = local.into_iter().map(|(n, re)| Inner::Let(n, re)).collect();
+                let mut local_nested: Vec<(String, Re)> = vec![];
+                for (n, mut body) in local {
+                    if t.next(3) == 0 {
+                        let mut inner: Vec<(String, Re)> = vec![];
+                        let side = t.next(3);
+                        if let Re::Cat(a, b) | Re::Alt(a, b) | Re::Diff(a, b) = &mut body {
+                            if side != 1 {
+                                factor_in(a, &mut t, 70, &mut inner, &format!("k{}_", local_nested.len()), 0);
+                            }
+                            if side != 0 {
+                                factor_in(b, &mut t, 70, &mut inner, &format!("j{}_", local_nested.len()), 0);
+                            }
+                        }
+                        local_nested.extend(inner);
+                    }
+                    local_nested.push((n, body));
+                }
+                let mut new_items: Vec<Inner> = local_nested.into_iter().map(|(n, re)| Inner::Let(n, re)).collect();
                 new_items.append(items);
                 *items = new_items;
             }
@@ -698,13 +715,20 @@ pub fn factor_lets(spec: &mut Spec, tape: &[u32], pct: u32) {
             _ => {}
         }
     }
-    // nested: a later top-level binding may use an earlier one
+    // nested: a later top-level binding may use an earlier one — in its left operand, its right
+    // operand, or both
     let mut nested: Vec<(String, Re)> = vec![];
     for (n, mut body) in top_defs {
-        if t.next(4) == 0 {
+        if t.next(3) == 0 {
             let mut inner: Vec<(String, Re)> = vec![];
-            if let Re::Cat(a, _) | Re::Alt(a, _) = &mut body {
-                factor_in(a, &mut t, 60, &mut inner, &format!("n{}_", nested.len()), 0);
+            let side = t.next(3);
+            if let Re::Cat(a, b) | Re::Alt(a, b) | Re::Diff(a, b) = &mut body {
+                if side != 1 {
+                    factor_in(a, &mut t, 70, &mut inner, &format!("n{}_", nested.len()), 0);
+                }
+                if side != 0 {
+                    factor_in(b, &mut t, 70, &mut inner, &format!("m{}_", nested.len()), 0);
+                }
             }
             nested.extend(inner);
         }
@@ -757,6 +781,68 @@ pub fn local_ctx_lets(spec: &mut Spec) {
             }
             defs.append(items);
             *items = defs;
+        }
+    }
+}
+
+
+fn reuse_in(re: &mut Re, t: &mut Tape, names: &[String], pct: u32, depth: u32) {
+    if names.is_empty() || depth > 8 {
+        return;
+    }
+    let replaceable = !re.has_eoi() && !matches!(re, Re::Var(_));
+    if replaceable && t.next(100) < pct {
+        *re = Re::Var(names[t.next(names.len() as u32) as usize].clone());
+        return;
+    }
+    match re {
+        Re::Star(a) | Re::Plus(a) | Re::Opt(a) => reuse_in(a, t, names, pct, depth + 1),
+        Re::Cat(a, b) | Re::Alt(a, b) => {
+            reuse_in(a, t, names, pct, depth + 1);
+            reuse_in(b, t, names, pct, depth + 1);
+        }
+        // operands of `#` must stay classes
+        _ => {}
+    }
+}
+
+/// Uses variables that are already in scope a second (third, …) time: random subtrees of rules
+/// are replaced by `$name` for a top-level or rule-set-local name bound before the rule, so that
+/// one variable occurs several times in a rule set with different text around it.
+pub fn reuse_vars(spec: &mut Spec, tape: &[u32], pct: u32) {
+    let mut t = Tape::new(tape);
+    let mut top: Vec<String> = vec![];
+    for item in spec.items.iter_mut() {
+        match item {
+            Top::Let(n, _) => top.push(n.clone()),
+            Top::Rule(r) => reuse_in(&mut r.re, &mut t, &top, pct, 0),
+            Top::RuleSet { items, .. } => {
+                let mut scope = top.clone();
+                for i in items.iter_mut() {
+                    match i {
+                        Inner::Let(n, _) => scope.push(n.clone()),
+                        Inner::Rule(r) => {
+                            reuse_in(&mut r.re, &mut t, &scope, pct, 0);
+                            // rules must stay non-nullable
+                        }
+                    }
+                }
+            }
+            _ => {}
+        }
+    }
+}
+
+/// After variable surgery a rule may have become nullable: prefix an atom where needed.
+pub fn repair_nullable(spec: &mut Spec, atom: char) {
+    let flat = match spec.flatten() {
+        Ok(f) => f,
+        Err(_) => return,
+    };
+    let nullable: Vec<bool> = flat.sets.iter().flat_map(|s| s.rules.iter().map(|r| r.re.nullable())).collect();
+    for (r, n) in spec.rules_mut().into_iter().zip(nullable) {
+        if n {
+            r.re = cat(Re::Char(atom), r.re.clone());
         }
     }
 }
